@@ -518,8 +518,10 @@ class FunctionStub(Stub):
         s += render_signature(self.signature, 120 - len(s), prefix) + ": ..."
         # Yes, this is a horrible hack, but inspect.py gives us no way to
         # specify the function that should be used to format annotations.
-        for module in self.strip_modules:
-            s = s.replace(module + ".", "")
+        # Strip a module prefix only where it starts a dotted name (not inside `my.utils.B` or
+        # `barfoo.Baz` when stripping `utils` / `foo`), longest module first.
+        for module in sorted(self.strip_modules, key=len, reverse=True):
+            s = re.sub(r"(?<![\w.])" + re.escape(module) + r"\.", "", s)
         if self.kind == FunctionKind.CLASS:
             s = prefix + "@classmethod\n" + s
         elif self.kind == FunctionKind.STATIC:
